@@ -103,7 +103,7 @@ def cases(rng, tier):
         lits = [rng.choice(list(NAMES)) for _ in range(depth)]
         fs = {}
         text, printed = module_texts(rng, g)
-        mode = rng.choice(['unique', 'unique', 'unique', 'ambiguous', 'missing', 'ambiguous-deep', 'file-in-the-way', 'empty', 'two'])
+        mode = rng.choice(['unique', 'unique', 'unique', 'ambiguous', 'missing', 'ambiguous-deep', 'file-in-the-way', 'empty', 'two', 'dir-twin', 'dir-twin'])
         path = []
         for i, v in enumerate(lits):
             path.append(rng.choice(NAMES[v]) + (".pbhhg" if i == depth - 1 and rng.random() < 0.5 else ""))
@@ -133,6 +133,22 @@ def cases(rng, tier):
             p = "/".join([rng.choice(twin)] + path[1:])
             if not any(q == p or q.startswith(p + "/") for q in fs):
                 fs[p] = "ㄷ".encode()
+        if mode == 'dir-twin':
+            # a *directory* (empty, or holding an unrelated file) whose path spells the same literals as the module file —
+            # next to it, or under a twin of the first component: only regular files are modules, so the import is
+            # still unique (seeded change S15g counted such directories when deciding ambiguity)
+            leaf_twins = [x for x in NAMES[lits[-1]] if x != path[-1].replace(".pbhhg", "")] + \
+                         ([path[-1].replace(".pbhhg", "")] if path[-1].endswith(".pbhhg") else [])
+            cands = ["/".join(path[:-1] + [rng.choice(leaf_twins)])]
+            if depth >= 2:
+                twin0 = [x for x in NAMES[lits[0]] if x != path[0]]
+                cands.append("/".join([rng.choice(twin0)] + path[1:-1] + [rng.choice(NAMES[lits[-1]])]))
+            for p in cands:
+                if not any(q == p or q.startswith(p + "/") or p.startswith(q + "/") for q in fs):
+                    if rng.random() < 0.5:
+                        fs[p] = None
+                    else:
+                        fs[p + "/" + rng.choice(OTHER)] = "ㄷ".encode()
         if mode == 'file-in-the-way' and depth >= 2:
             twin = [x for x in NAMES[lits[0]] if x != path[0]]
             p = rng.choice(twin)          # a regular *file* whose name matches the first component
